@@ -564,12 +564,14 @@ inline model::MLib library(Rng& r, const Cfg& cfg) {
     if (cfg.force_ongrid) c.offgrid = false;
     if (r.chance(0.15)) c.span = 200000;
     if (r.chance(0.05)) c.span = 50000000;
+    if (cfg.mode == canon::OAS && r.chance(0.04)) c.span = (dg_t)1 << 38;  // OASIS integers are not limited to 32 bits
     m.name = r.chance(0.5) ? "LIB" : ident(r, 1, 14);
     static const double units[] = {1e-6, 1e-6, 1e-6, 1e-3, 1e-9, 2e-6, 1.0, 2.54e-5};
     static const double ratios[] = {1000, 1000, 100, 10, 2000, 10000, 1, 400};
     m.unit = units[r.below(8)];
     m.precision = m.unit / ratios[r.below(8)];
     int ncell = (int)r.range(1, cfg.max_cells);
+    if (r.chance(0.02)) ncell = 0;  // an empty library is a library too
     std::set<std::string> names;
     for (int i = 0; i < ncell; i++) {
         std::string n;
